@@ -210,7 +210,9 @@ def r7_cursor_loops(text):
         bind = f'let {var} = {b}{xs}[{ix}];' if not deref_pat else f'let {var} = {xs}[{ix}];'
         # iter_mut: a ghost snapshot of the whole sequence taken before the element is borrowed (proof overlays name it `<var>_all`)
         snap = f'let ghost {var}_all = {xs}@;\n{ind}    ' if mutk == 'iter_mut' else ''
-        return (f'{ind}let mut {cur}: usize = 0;\n{ind}while {cur} < {xs}.len()\n{ind}    /*@LOOPSPEC*/\n{ind}{{\n'
+        # ... and one taken at loop entry (`<var>_entry`): loop clauses are written relative to it, not to the function entry
+        entry = f'{ind}let ghost {var}_entry = {xs}@;\n' if mutk == 'iter_mut' else ''
+        return (f'{entry}{ind}let mut {cur}: usize = 0;\n{ind}while {cur} < {xs}.len()\n{ind}    /*@LOOPSPEC*/\n{ind}{{\n'
                 f'{ind}    let {ix} = {cur}; {cur} += 1;\n{ind}    {snap}{bind}')
 
     def repl_enum(m):
@@ -599,3 +601,21 @@ def r12_position(text):
                 f'{ind}    let {c} = &{e}[{c}_nx];\n{ind}    if {cond} {{ {i}_pos = Some({c}_nx); break; }}\n{ind}    {c}_nx += 1;\n{ind}}}\n'
                 f'{ind}if let Some({i}) = {i}_pos {{')
     return pat.subn(sub, text)
+
+
+def r22_fold_float_const(text):
+    """R22: `const X: f64 = A op B;` with two float literals is folded to its IEEE-754 double value (Python floats are the same
+    binary64 arithmetic, round-to-nearest-even): Verus cannot evaluate float operators in a const initialiser."""
+    m = re.search(r'(:\s*f64\s*=\s*)([0-9][0-9_]*\.[0-9_]*)\s*([-+*/])\s*([0-9][0-9_]*\.[0-9_]*)\s*;', text)
+    if not m:
+        return text, 0
+    a, b = float(m.group(2).replace('_', '')), float(m.group(4).replace('_', ''))
+    if m.group(3) == '/' and b == 0.0:
+        return text, 0
+    v = {'+': a + b, '-': a - b, '*': a * b, '/': a / b if b else 0.0}[m.group(3)]
+    lit = repr(v)
+    if 'e' in lit or 'inf' in lit or 'nan' in lit:
+        return text, 0
+    if '.' not in lit:
+        lit += '.0'
+    return text[:m.start()] + m.group(1) + lit + ';' + text[m.end():], 1
